@@ -104,13 +104,17 @@ class HTMLScraper(HTMLReader, BaseHTMLScraper):
         encoding = self._encoding_override \
             or detect_response_encoding(response, is_html=True)
         link_contexts = set()
+        # Filled in while the elements are read: what was seen before a
+        # parser failure still counts, like the links found so far.
+        result_meta_info = {}
 
         try:
             with wpull.util.reset_file_offset(content_file):
                 elements = self.iter_elements(content_file, encoding=encoding)
 
-                result_meta_info = self._process_elements(
-                    elements, response, base_url, link_contexts
+                self._process_elements(
+                    elements, response, base_url, link_contexts,
+                    result_meta_info
                 )
 
         except (UnicodeError, self._html_parser.parser_error) as error:
@@ -118,7 +122,6 @@ class HTMLScraper(HTMLReader, BaseHTMLScraper):
                 _('Failed to read document at ‘{url}’: {error}'),
                 url=request.url_info.url, error=error
             )
-            result_meta_info = {}
 
         if result_meta_info.get('robots_no_follow'):
             link_contexts.difference_update(frozenset(
@@ -129,9 +132,9 @@ class HTMLScraper(HTMLReader, BaseHTMLScraper):
         scrape_result['base_url'] = base_url
         return scrape_result
 
-    def _process_elements(self, elements, response, base_url, link_contexts):
+    def _process_elements(self, elements, response, base_url, link_contexts,
+                          meta_info):
         robots_check_needed = self._robots
-        robots_no_follow = False
         inject_refresh = True
         doc_base_url = None
 
@@ -141,7 +144,7 @@ class HTMLScraper(HTMLReader, BaseHTMLScraper):
 
             if robots_check_needed and ElementWalker.robots_cannot_follow(element):
                 robots_check_needed = False
-                robots_no_follow = True
+                meta_info['robots_no_follow'] = True
 
             if not doc_base_url and element.tag == 'base':
                 doc_base_url = urljoin_safe(
@@ -204,8 +207,6 @@ class HTMLScraper(HTMLReader, BaseHTMLScraper):
                         link_type=link_info.link_type,
                         extra=link_info,
                     ))
-
-        return {'robots_no_follow': robots_no_follow}
 
     def scrape_file(self, file, encoding=None, base_url=None):
         '''Scrape a file for links.
